@@ -9,4 +9,4 @@ if git -C $d diff --quiet; then echo "MUTATION DID NOT CHANGE ANYTHING"; fi
 (cd $d && GOFLAGS=-mod=mod GOPROXY=off GOSUMDB=off GOTOOLCHAIN=local go build ./... ) || echo "MUTANT DOES NOT BUILD"
 VERIF_REPO=$d /verif/check $prop quick 2>&1 | grep -E '^VIOLATION|^  key|quick:|BUILD|exited' | head -8
 git -C /repo worktree remove --force $d
-rm -f /verif/.build/*.mod /verif/.build/*.sum /verif/.build/props.test.go.* /verif/.build/props.race.test.go.*
+tag=$(python3 -c "import hashlib;print(hashlib.sha1('$d'.encode()).hexdigest()[:8])"); rm -f /verif/.build/go.$tag.mod /verif/.build/go.$tag.sum /verif/.build/props.test.go.$tag.mod /verif/.build/props.race.test.go.$tag.mod
